@@ -174,8 +174,56 @@ def sdes_cases(r):
     return ops
 
 
+def line_starts(f):
+    """offsets at which fgets() starts a new line (offset len(f) included when the file ends in LF)"""
+    return [0] + [i + 1 for i, c in enumerate(f) if c == 0x0a]
+
+
+def nul_at_line_start(r, f):
+    """A NUL byte as the FIRST byte fgets() stores for some line: the line buffer then holds a zero-length string
+    (`strlen(buf) == 0`), the input on which `buf[strlen(buf) - 1]`-style EOL stripping reads/writes one byte before
+    the buffer.  Variants: first line, a later line, the whole file, right behind a complete last line, alone
+    between two newlines, overwriting (not inserting) a line's first byte, several NULs, NUL CR / NUL LF only."""
+    starts = line_starts(f)
+    k = r.below(9)
+    if k == 0:
+        return b"\0" + f                                              # first line
+    if k == 1:
+        p = r.choice(starts[1:] or starts)                            # a later line (incl. behind the last LF)
+        return f[:p] + b"\0" + f[p:]
+    if k == 2:
+        return r.choice([b"\0", b"\0\n", b"\0\r\n", b"\0\0", b"\0\r", b"\0\0\n"])    # the whole file
+    if k == 3:
+        g = f if f.endswith(b"\n") else f + b"\n"                    # right after a complete (last) line
+        return g + b"\0"
+    if k == 4:
+        p = r.choice(starts)                                          # the only content between two newlines
+        return f[:p] + r.choice([b"\n\0\n", b"\0\n", b"\n\0\r\n"]) + f[p:]
+    if k == 5:
+        p = r.choice([q for q in starts if q < len(f)] or [0])        # overwrite the first byte of a line
+        return f[:p] + b"\0" + f[p + 1:]
+    if k == 6:
+        p = r.choice(starts)
+        return f[:p] + b"\0" * r.range(2, 4) + f[p:]
+    if k == 7:
+        # a line that is valid apart from the leading NUL, in front of / behind valid lines
+        good = b"ACCESS_KEY_ID=AKIA\n" + b"ACCESS_KEY_SECRET=s3cr3t\n"
+        p = r.choice(line_starts(good))
+        return good[:p] + b"\0" + good[p:]
+    # behind an over-long line: fgets() returns the line in pieces; the NUL is the first byte of a later piece
+    n = r.choice([1022, 1023, 1024, 2046, 2047])
+    return bytes(r.choice(b"ABC=") for _ in range(n)) + b"\0" + f
+
+
 def file_cases(r):
     ops = []
+    # directed: zero-length strings in the line buffer (see nul_at_line_start), once per case for both readers
+    for f in (b"\0", b"\0\n", b"\n\0\n", b"\0ACCESS_KEY_ID=a\nACCESS_KEY_SECRET=b\n",
+              b"ACCESS_KEY_ID=a\n\0ACCESS_KEY_SECRET=b\n", b"ACCESS_KEY_ID=a\nACCESS_KEY_SECRET=b\n\0"):
+        if r.chance(1, 3):
+            ops.append("awskeys " + hx(f))
+        if r.chance(1, 6):
+            ops.append("readpass " + hx(f))
     for _ in range(8):
         # key files
         lines = []
@@ -201,6 +249,8 @@ def file_cases(r):
         f = b"".join(lines)
         if r.chance(1, 5):
             f = f[:r.below(len(f) + 1)]                                   # unterminated last line
+        if r.chance(1, 4):
+            f = nul_at_line_start(r, f)
         ops.append("awskeys " + hx(f))
         # passphrase files
         plen = r.choice([0, 1, 8, r.range(0, 80), 2044, 2045, 2046, 2047, 2048, 2049, 4100])
@@ -209,6 +259,8 @@ def file_cases(r):
             p = r.below(len(pw) + 1)
             pw = pw[:p] + r.choice([b"\0", b"\r", b"\n"]) + pw[p:]
         pw += r.choice([b"\n", b"\n", b"\r\n", b"", b"\n\n", b"\nsecond\n", b"\r", b"\n\0"])
+        if r.chance(1, 6):
+            pw = nul_at_line_start(r, pw)
         ops.append("readpass " + hx(pw))
     return ops
 
@@ -258,7 +310,11 @@ def classify(case, out):
         elif w[0] == "sdes" and len(w) > 3:
             tags.add("sdes:" + ("null" if w[3] == "null" else "decoded"))
         elif w[0] in ("awskeys", "readpass") and len(w) > 3:
-            tags.add(w[0] + ":" + w[3])
+            tags.add(w[0] + ":" + (w[3] if w[0] == "awskeys" else w[2]))      # ok / fail
+        if op[0] in ("awskeys", "readpass") and len(op) > 1 and op[1] != "-":
+            f = bytes.fromhex(op[1])
+            if any(p < len(f) and f[p] == 0 for p in line_starts(f)):
+                tags.add(op[0] + ":nul-first-byte-of-line")
     return sorted(tags)
 
 
@@ -273,7 +329,9 @@ def components(ctx):
              "addresses with stray brackets/colons, ports around the limits, paths of 106..110 and 1000 bytes (host-name "
              "forms are answered 'host' without calling the resolver); serialised addresses with namelen fields "
              "+-1, 0, 2^31, 2^32-12.., truncated below 12 bytes; key/passphrase files with lines of 1020..1025 / "
-             "2044..2049 bytes, missing final newline, CR, embedded NUL; argument vectors over 27 option-like tokens; "
+             "2044..2049 bytes, missing final newline, CR, embedded NUL, and a NUL as the FIRST byte of a line (zero-length "
+             "string in the line buffer: first line, later line, file = one NUL, behind a complete last line, alone between "
+             "two newlines, behind an over-long line); argument vectors over 27 option-like tokens; "
              "non-trivial = at least 5 ops",
         classify=classify, env={"HPARSERS_TMP": ctx.tmp})]
 
